@@ -1,5 +1,5 @@
 """C15 - lattice structure is invariant under relabelling, duplication and transposition."""
-from core import guard, PyCtx, lattice_view
+from core import guard, PyCtx, lattice_view, Disagreement
 from props import lat
 import gen
 
@@ -33,6 +33,12 @@ def label_view(lc, sample_pairs):
         x, y = by_ext.get(a), by_ext.get(b)
         if x is not None and y is not None:
             jm[(a, b)] = (key(x | y), key(x & y), key(L.join([x, y])), key(L.meet([x, y])))
+    from concepts import algorithms
+    for gname in ('fast_generate_from', 'fcbo_dual'):
+        gen_pairs = [(frozenset(e.members()), frozenset(i.members())) for e, i in getattr(algorithms, gname)(lc.ctx)]
+        if len(gen_pairs) != len(set(gen_pairs)) or frozenset(gen_pairs) != concepts_:
+            raise Disagreement('%s disagrees with the lattice of this context: %d pairs (%d distinct) against %d concepts'
+                               % (gname, len(gen_pairs), len(set(gen_pairs)), len(concepts_)))
     rels = set()
     for r in lc.ctx.relations():
         if r.kind == 'implication':
